@@ -72,10 +72,15 @@ def confirm(rec, families):
     return out
 
 
-def run(pid: str, tier: str, families=None, extra_requests=None):
+def run(pid: str, tier: str, families=None, extra_requests=None, worker=None, variants=None,
+        confirm_fn=None, validate=True, level="model_checking", functions=None, extra_assumptions=()):
+    """Generic kernel sweep.  ``variants``: list of dicts merged into every task (one task per
+    variant), e.g. the two C05 programs."""
     t0 = time.time()
     cfg = PROPS.get(pid, {})
-    families = families or cfg["families"]
+    families = families or cfg.get("families", [])
+    worker = worker or ksweep.run_task
+    confirm_fn = confirm_fn or confirm
     seed = common.seed()
     rep = common.Reporter(pid)
     if tier == "quick":
@@ -87,8 +92,9 @@ def run(pid: str, tier: str, families=None, extra_requests=None):
     if extra_requests:
         reqs = reqs + extra_requests
     tasks = ksweep.build_tasks(reqs, D, N, families, dim_mode, max_paths, tb)
-    # biggest first is unknown; just run
-    results = ksweep.run_tasks(tasks)
+    if variants:
+        tasks = [{**t, **v} for t in tasks for v in variants]
+    results = ksweep.run_tasks(tasks, worker=worker)
     agg = {"paths": 0, "decisions": 0, "queries": 0, "solver_s": 0.0, "obligations": 0,
            "loop_iters": 0}
     refused = {}
@@ -97,7 +103,7 @@ def run(pid: str, tier: str, families=None, extra_requests=None):
     samples = []
     n_viol = 0
     stmts = reached = 0
-    checked = {"value": 0, "support": 0, "canon": 0}
+    checked = {}
     grew_requests = set()
     for r in results:
         key = r["request"]["assignment"] + " | " + ",".join(f"{k}:{v}" for k, v in r["request"]["formats"].items())
@@ -112,9 +118,9 @@ def run(pid: str, tier: str, families=None, extra_requests=None):
             stmts += r["coverage"]["statements"]
             reached += r["coverage"]["reached"]
         fl = r.get("flags", {})
-        checked["value"] += fl.get("checked_value", 0)
-        checked["support"] += fl.get("checked_support", 0)
-        checked["canon"] += fl.get("checked_canon", 0)
+        for fk, fv in fl.items():
+            if isinstance(fv, int) and not isinstance(fv, bool):
+                checked[fk] = checked.get(fk, 0) + fv
         if fl.get("grew"):
             grew_requests.add(key)
         if st == "harness-error":
@@ -123,9 +129,9 @@ def run(pid: str, tier: str, families=None, extra_requests=None):
             budget.append({"request": key, "dimvec": r["dimvec"], "why": r.get("error")})
         elif st == "violation":
             n_viol += 1
-            conf = confirm(r, families)
+            conf = confirm_fn(r, families)
             record = {"name": key, "request": key, "assignment": r["request"]["assignment"],
-                      "kind": r["violation"]["kind"],
+                      "kind": r["violation"]["kind"], "program": r.get("program") or r.get("mode"),
                       "label0": (r["violation"]["label"] or [""])[0] if isinstance(r["violation"]["label"], list) else str(r["violation"]["label"])}
             doc = {"property": pid, "request": r["request"], "dimvec": r["dimvec"], "bounds": {"D": D, "N": N},
                    "violation": r["violation"], "confirmation": conf,
@@ -140,7 +146,10 @@ def run(pid: str, tier: str, families=None, extra_requests=None):
                             "paths": r["stats"]["paths"], "queries": r["stats"]["queries"],
                             "witness": r.get("witness")})
     # validate the executor against the implementation on witnesses
-    validated, val_problems = validate_witnesses(results, families, limit=12 if tier == "quick" else 40)
+    if validate:
+        validated, val_problems = validate_witnesses(results, families, limit=12 if tier == "quick" else 40)
+    else:
+        validated, val_problems = 0, []
     for p in val_problems:
         rep.harness_error(p)
     if not generated:
@@ -170,12 +179,12 @@ def run(pid: str, tier: str, families=None, extra_requests=None):
         "bounds": {"dense_dimension_max": D, "stored_entries_per_compressed_level": N,
                    "dimension_vectors": dim_mode, "initial_capacity": "symbolic in [1, 2^20]",
                    "max_paths_per_task": max_paths},
-        "functions_encoded": ["tensora.generate.generate_module_tensora (output IR executed symbolically)",
-                              "tensora.ir.peephole (as part of the pipeline)"],
+        "functions_encoded": functions or ["tensora.generate.generate_module_tensora (output IR executed symbolically)",
+                                           "tensora.ir.peephole (as part of the pipeline)"],
         "violations_found_by_solver": n_viol,
         "known_findings_met": [k["id"] for k in rep.known],
     }
-    common.write_evidence(pid, tier, "model_checking", coverage, ASSUMPTIONS, wall,
+    common.write_evidence(pid, tier, level, coverage, ASSUMPTIONS + list(extra_assumptions), wall,
                           len(rep.violations))
     print(f"{pid} {tier}: requests={len(reqs)} generated={len(generated)} refused={len(refused)} "
           f"tasks={len(tasks)} paths={agg['paths']} queries={agg['queries']} solver={agg['solver_s']:.1f}s "
